@@ -72,13 +72,26 @@ func scoredOf(r *bluge.Reader, q bluge.Query) (string, error) {
 // conjunction / disjunction / numeric-range / prefix queries (the optimised
 // bitmap paths included), and scored compound queries whose evaluation seeks
 // backwards. The result maps a read's name to a canonical rendering.
-func ReadExt(r *bluge.Reader) map[string]string { return ReadExtRot(r, 0) }
+func ReadExt(r *bluge.Reader, extra ...qSpec) map[string]string { return ReadExtRot(r, 0, extra...) }
 
 // ReadExtRot performs the same reads starting with the rot-th one: a reader
 // must give the same answers whatever it was asked before.
-func ReadExtRot(r *bluge.Reader, rot int) map[string]string {
+func ReadExtRot(r *bluge.Reader, rot int, extra ...qSpec) map[string]string {
 	rv := map[string]string{}
 	steps := extSteps(r, rv)
+	// the run's own generated queries (all public query types, nested
+	// booleans): match set and scores
+	for i, q := range extra {
+		i, q := i, q
+		steps = append(steps, func() {
+			s, err := scoredOf(r, q.Make())
+			if err != nil {
+				rv[fmt.Sprintf("q%d %s", i, q.Desc)] = "ERROR " + err.Error()
+			} else {
+				rv[fmt.Sprintf("q%d %s", i, q.Desc)] = s
+			}
+		})
+	}
 	if rot < 0 {
 		rot = -rot
 	}
